@@ -153,6 +153,11 @@ def normalize_key(
         )
         raise IndexError(msg)
 
+    if for_dump:
+        # A dump key addresses the external axes only (in order), so every
+        # component is checked against `shape`, not against the full-shape mask.
+        shape_mask = (True,) * expected_rank
+
     normalized_key: list[int | slice] = []
     shape_index = 0
     internal_shape_index = 0
